@@ -81,3 +81,71 @@ func PathBindPrograms() []string {
 func PathBindInputs() []any {
 	return []any{[]any{1, 2}, nil, map[string]any{"a": 0}, map[string]any{"a": "a", "b": []any{1}}, []any{0, []any{1}}, []any{1, "x", "y"}, []any{[]any{0}, []any{1}}, map[string]any{"a": map[string]any{"b": 1}}, 0, "a"}
 }
+
+// LiteralShapePrograms: container literals whose members are built from constants and the identity with commas, pipes
+// and parentheses in every arrangement (all binary trees over 2..4 leaves from {1, ., 2}; every=k keeps a
+// deterministic 1/k slice of the four-leaf ones). The constant-folding rewrites recognise literals by the shape of the
+// emitted instructions, and the identity emits none: `(1, . | 2)` and `1, 2` look alike.
+func LiteralShapePrograms(every int) []string {
+	atoms := []string{"1", ".", "2"}
+	ops := []string{", ", " | "}
+	var trees func(n int) []string
+	memo := map[int][]string{}
+	trees = func(n int) []string {
+		if t, ok := memo[n]; ok {
+			return t
+		}
+		var out []string
+		if n == 1 {
+			out = atoms
+		} else {
+			for k := 1; k < n; k++ {
+				for _, l := range trees(k) {
+					for _, r := range trees(n - k) {
+						for _, o := range ops {
+							out = append(out, "("+l+o+r+")")
+						}
+					}
+				}
+			}
+		}
+		memo[n] = out
+		return out
+	}
+	wraps := []string{"[%s]", "[%s, 3]", "[3, %s]", "{a: %s}", "{a: 3, b: %s}", "[-%s]", "[[%s], 3]", "{a: [%s]}", "[%s] | length", "[%s, %s]"}
+	var out []string
+	n := 0
+	for leaves := 2; leaves <= 4; leaves++ {
+		for _, t := range trees(leaves) {
+			inner := t[1 : len(t)-1] // without the outermost parentheses too
+			for wi, w := range wraps {
+				n++
+				if leaves == 4 && every > 1 && n%every != 0 {
+					continue
+				}
+				s := t
+				if wi%2 == 1 {
+					s = inner
+					if w[0] == '{' || w == "[-%s]" {
+						s = t // an object value / a negated term needs the parentheses
+					}
+				}
+				out = append(out, replaceAll(w, s))
+			}
+		}
+	}
+	return out
+}
+
+func replaceAll(w, s string) string {
+	out := ""
+	for i := 0; i < len(w); i++ {
+		if w[i] == '%' && i+1 < len(w) && w[i+1] == 's' {
+			out += s
+			i++
+			continue
+		}
+		out += string(w[i])
+	}
+	return out
+}
